@@ -3,8 +3,9 @@
    N, Z, positive, nat, string, ascii stay the extracted inductive types. *)
 From Coq Require Extraction.
 From Coq Require Import ExtrOcamlBasic.
-From Baize Require C03.IO.
+From Baize Require C03.IO C17.IO.
 
 Definition c03_run_line := C03.IO.run_line.
+Definition c17_run_line := C17.IO.run_line.
 
-Extraction "../ocaml/gen/model.ml" c03_run_line.
+Extraction "../ocaml/gen/model.ml" c03_run_line c17_run_line.
